@@ -3,7 +3,7 @@ CONSTANTS
   Abis = {"x64-elf"}
   MaxUses = 1
   Cat = "full"
-  MapNames = {"AB", "AA", "AB_BC", "BC_AB", "AB_BA", "AB_XB", "AB_XC", "XC", "AB_AC", "AF", "FB", "AN"}
+  MapNames = {"AB", "AA", "AB_BC", "AB_BA", "AB_XB", "AB_XC", "AB_AC", "AF", "FB", "AN"}
   WithPatch = TRUE
   Emit = TRUE
 INVARIANT Inv
